@@ -30,6 +30,7 @@
  *   end                               close handles and filesystem, reopen read-only, final observation + inode fields
  *
  * Concrete part (ExtentMap / IndMap conformance), block numbers are literal:
+ *   reserve <start> <count>           mark physical blocks in use (the numbers an xset script maps by hand)
  *   xset <f> <lblk> <pblk> <uninit>   ext2fs_extent_set_bmap on the inode, then dump of the leaf extents
  *   xpunch <f> <start> <end>          ext2fs_punch, then leaf extents, mapped set before/after, physical blocks freed
  *   bwrite <f> <lblk> <n> <tag>       write n whole blocks at logical block lblk (to populate a block-mapped file)
@@ -706,31 +707,65 @@ int main(int argc, char **argv)
 			}
 			ext2fs_file_close(h);
 			printf("{\"e\":\"fill\",\"free\":%llu}\n", (unsigned long long) ext2fs_free_blocks_count(fs->super));
+		} else if (!strcmp(cmd, "reserve")) {
+			/* keep the allocator away from the physical numbers an xset script is going to use */
+			unsigned long long st, cnt;
+			if (sscanf(line, "%*s %llu %llu", &st, &cnt) != 2) die("reserve args", 0);
+			ext2fs_block_alloc_stats_range(fs, st, cnt, +1);
 		} else if (!strcmp(cmd, "xset")) {
 			ext2_extent_handle_t h;
 			unsigned long long l, p;
 			int u;
+			blk64_t oldp = 0;
 			if (sscanf(line, "%*s %d %llu %llu %d", &f, &l, &p, &u) != 4) die("xset args", 0);
+			/* behave like a caller: the block being mapped is allocated, a block losing its mapping is released */
+			ext2fs_bmap2(fs, ino[f], NULL, NULL, 0, l, NULL, &oldp);
+			if (p && !ext2fs_test_block_bitmap2(fs->block_map, p))
+				ext2fs_block_alloc_stats2(fs, p, +1);
 			e = ext2fs_extent_open2(fs, ino[f], NULL, &h);
 			if (e) die("xset extent_open2", e);
 			e = ext2fs_extent_set_bmap(h, l, p, u ? EXT2_EXTENT_SET_BMAP_UNINIT : 0);
 			ext2fs_extent_free(h);
+			if (!e && oldp && oldp != p)
+				ext2fs_block_alloc_stats2(fs, oldp, -1);
+			if (!e && (!oldp) != (!p)) {
+				struct ext2_inode in;
+				if (!ext2fs_read_inode(fs, ino[f], &in)) {
+					if (p)
+						ext2fs_iblk_add_blocks(fs, &in, 1);
+					else
+						ext2fs_iblk_sub_blocks(fs, &in, 1);
+					ext2fs_write_inode(fs, ino[f], &in);
+				}
+			}
 			printf("{\"e\":\"xset\",\"l\":%llu,\"p\":%llu,\"u\":%d,\"ret\":%d,\"err\":\"%ld\"", l, p, u, errclass(e), (long) e);
 			print_extents(f);
 			printf("}\n");
 		} else if (!strcmp(cmd, "xpunch") || !strcmp(cmd, "bpunch")) {
 			unsigned long long s, en;
+			long long en_in;
 			struct blist before, after;
 			ext2fs_block_bitmap snap;
-			int isx = cmd[0] == 'x';
-			if (sscanf(line, "%*s %d %llu %llu", &f, &s, &en) != 3) die("xpunch args", 0);
+			int isx = cmd[0] == 'x', depth0 = 0;
+			if (sscanf(line, "%*s %d %llu %lld", &f, &s, &en_in) != 3) die("xpunch args", 0);
+			en = en_in < 0 ? ~0ULL : (unsigned long long) en_in;
 			close_handle(f);
+			if (isx) {
+				ext2_extent_handle_t xh;
+				struct ext2_extent_info info;
+				if (!ext2fs_extent_open2(fs, ino[f], NULL, &xh)) {
+					if (!ext2fs_extent_get_info(xh, &info))
+						depth0 = info.max_depth;
+					ext2fs_extent_free(xh);
+				}
+			}
 			collect(f, &before);
 			e = ext2fs_copy_bitmap(fs->block_map, &snap);
 			if (e) die("copy_bitmap", e);
 			e = ext2fs_punch(fs, ino[f], NULL, NULL, s, en);
 			collect(f, &after);
-			printf("{\"e\":\"%s\",\"s\":%llu,\"en\":%llu,\"ret\":%d,\"err\":\"%ld\"", cmd, s, en, errclass(e), (long) e);
+			printf("{\"e\":\"%s\",\"s\":%llu,\"en\":%lld,\"depth0\":%d,\"ret\":%d,\"err\":\"%ld\"", cmd, s, en_in < 0 ? -1LL : en_in,
+			       depth0, errclass(e), (long) e);
 			print_lranges("before", &before);
 			print_lranges("after", &after);
 			freed_check(f, &before, &after, snap);
